@@ -436,6 +436,19 @@ func (v *Value) Compare(b *Value) (int, error) {
 	}
 }
 
+// Equals reports whether v == b holds: an unset value is equal to nothing (as
+// for the == operator), everything else is equal when Compare says so
+func (v *Value) Equals(b *Value) (bool, error) {
+	if v.Tag == ValueUnknown || b.Tag == ValueUnknown {
+		return false, nil
+	}
+	cmp, err := v.Compare(b)
+	if err != nil {
+		return false, err
+	}
+	return cmp == 0, nil
+}
+
 func (v *Value) Not() *Value {
 	var notValue Value
 	if v.isTruthy() {
